@@ -4,7 +4,7 @@
    input of the generator, where the source takes it from today (goextract traces
    the right-hand sides), and this file interprets those answers over a record of
    the built artifacts.  No proofs here. *)
-From Apko Require Import Base.Prelude Base.C01Lib Base.C11Lib Model.Sbom Generated.C11Prov.
+From Apko Require Import Base.Prelude Base.C01Lib Base.C11Lib Model.Sbom Model.SbomLic Generated.C11Prov.
 Open Scope string_scope. Open Scope list_scope.
 
 (* one paragraph of the image's installed database: name, version, checksum, and
@@ -50,6 +50,13 @@ Definition image_sbom_input (b : built) : option gen_in :=
 Definition image_sbom (perm : list string -> list string) (b : built) : res doc :=
   match image_sbom_input b with
   | Some g => generate perm g
+  | None => Err
+  end.
+
+(* ... with the extracted licensing infos of the embedded documents (Model/SbomLic.v) *)
+Definition image_sbom_full (perm : list string -> list string) (b : built) (lfs : list (string * list linfo)) : res (doc * list linfo) :=
+  match image_sbom_input b with
+  | Some g => generate_full perm g lfs
   | None => Err
   end.
 
